@@ -241,13 +241,48 @@ pub fn fit_on<F: Float, D: Distance<F>, R: rand::Rng + Clone>(
 }
 
 pub fn fitted_of<F: Float, D: Distance<F>>(model: KMeans<F, D>) -> Fitted<F, D> {
-    {
-        {
-            let cent = from_arr(model.centroids());
-            let cent64 = to64(&cent);
-            let counts = model.cluster_count().iter().map(|v| v.to_f64().unwrap_or(f64::NAN)).collect();
-            let inertia = model.inertia().to_f64().unwrap_or(f64::NAN);
-            Fitted { model, cent, cent64, counts, inertia }
+    let cent = from_arr(model.centroids());
+    let cent64 = to64(&cent);
+    let counts = model.cluster_count().iter().map(|v| v.to_f64().unwrap_or(f64::NAN)).collect();
+    let inertia = model.inertia().to_f64().unwrap_or(f64::NAN);
+    Fitted { model, cent, cent64, counts, inertia }
+}
+
+/// One mini-batch step from `Precomputed(C0)` through `fit_with(None, ..)`: the returned model keeps
+/// the memory layout of the caller's centroid matrix. Only used as a *model* for predict/transform.
+pub fn fit_with_once<F: Float + std::fmt::Debug, D: Distance<F> + std::fmt::Debug + 'static, R: rand::Rng + Clone>(
+    obs: &mut Obs,
+    pr: &Prep<F>,
+    k: usize,
+    rng: R,
+    dist: D,
+    init: &Init,
+    c0_layout: Layout,
+    tol: f64,
+) -> Option<Fitted<F, D>> {
+    use linfa::traits::FitWith;
+    use linfa::ParamGuard;
+    use linfa_clustering::IncrKMeansError;
+    limit_pool();
+    let li = linfa_init::<F>(init, &pr.xf_, pr.p, c0_layout);
+    let params = KMeans::params_with(k, rng, dist).tolerance(F::cast(tol)).init_method(li).check().ok()?;
+    let r = obs.call("fit_with", || {
+        let res = if pr.recs.strided {
+            params.fit_with(None, &DatasetBase::from(pr.recs.view()))
+        } else {
+            params.fit_with(None, &DatasetBase::from(pr.recs.store.clone()))
+        };
+        match res {
+            Ok(m) => Ok(m),
+            Err(IncrKMeansError::NotConverged(m)) => Ok(m),
+            Err(e) => Err(e.to_string()),
+        }
+    })?;
+    match r {
+        Ok(m) => Some(fitted_of(m)),
+        Err(e) => {
+            obs.fail("fit_with:error", format!("fit_with returned an error for valid hyper-parameters: {e}"));
+            None
         }
     }
 }
